@@ -68,6 +68,16 @@ static void output_hex_text(FILE *fp, char *s, int ptr)
   fprintf(fp, "%s", s);
 }
 
+// Some errors end the assembly with exit() from deep inside the assembler.
+// Whatever way it ends before it succeeded, no output file is left, not
+// even a stale one from an earlier run.
+static const char *remove_on_exit = NULL;
+
+static void remove_output_file()
+{
+  if (remove_on_exit != NULL) { unlink(remove_on_exit); }
+}
+
 int main(int argc, char *argv[])
 {
   int i;
@@ -330,6 +340,9 @@ int main(int argc, char *argv[])
     exit(1);
   }
 
+  remove_on_exit = outfile;
+  atexit(remove_output_file);
+
   if (asm_context.quiet_output == 0)
   {
     printf(" Input file: %s\n", infile);
@@ -481,6 +494,10 @@ int main(int argc, char *argv[])
   {
     printf("*** Failed ***\n\n");
     unlink(outfile);
+  }
+    else
+  {
+    remove_on_exit = NULL;
   }
 
   return error_flag == 0 ? EXIT_SUCCESS : EXIT_FAILURE;
